@@ -25,12 +25,19 @@ func init() {
 				"information keeps an ECS record exactly when the decoded option's subnet is not the zero value (so a /0 opt-out is " +
 				"kept), and a malformed option is answered with FORMERR without calling the next stage.",
 			NotCovered: "the GeoIP data itself and the scope arithmetic of upstream answers; that the upstream honours the option.",
-			Rules: map[string]string{"C05-R19": "geoip.replaceSubnet never selects a network narrower than the desired length (/24, /56), whether or not the key already has one", "C05-R18": "UpstreamPlain.processConn closes the connection after any failed exchange and pools it only after a successful one (shared with C17-R4)", "C05-R17": "dnsmsg.ecsData: the option's address is converted in the family the option declares (netutil.IPToAddr with that family), and the option is accepted exactly for family 1 or 2, a convertible address, a valid source length (the bits-beyond-the-prefix test is explored but not pinned by the table)", "C05-R16": "respIsECSDependent: a non-zero scope is ignored only when the question name itself is listed in FakeECSFQDNs (exact lookup of the name)", "C05-R15": "padAnswer only appends to the response's options, so the client-subnet echo survives padding on encrypted transports (table shared with C08-R5)", "C05-R14": "a query with more than one OPT record is answered with FORMERR and never reaches the handlers, which read and replace the client subnet in the last OPT record only (accept-gate table shared with C01-R1; table of the counting helper over additional sections of up to three records)", "C05-RC": "class rules (error chains, shadowed results, character classes, crossed arguments, pool constructors, array pools, loop completeness, loop-carried buffers, replacing setters, complete clones, Grow arithmetic, pooled-buffer escape, sorted searches, fresh decode targets, per-iteration objects, whole-message copies, codec guards) over the packages this property rests on", "C05-R13": "caches store and hand out clones (shared with C07-R4)", "C05-R12": "no slice built on a pooled byte buffer that the function gives back is stored into a longer-lived object (expected count today: zero Get/Put pairs in this code; positive instances are the seeded changes)", "C05-R11": "every maxminddb Lookup / Network call decodes into a zero value created for that call (the decoder leaves absent fields untouched)", "C05-R10": "geoip.File.Refresh: no path from installing new databases to the return skips clearing either lookup cache", "C05-R1": "handler decision tree and upstream-subnet provenance", "C05-R2": "who writes cacheRequest.subnet",
+			Rules: map[string]string{"C05-R21": "the GeoIP scanner asks replaceSubnet for the desired length of the network's own family: the IPv4 constant where the network's address Is4, the IPv6 constant otherwise, on every path into the call", "C05-R20": "an OPT record taken from the cloner's pool starts without options (shared with C08-R6): no client-subnet option of an earlier message is left in a constructed answer", "C05-R19": "geoip.replaceSubnet never selects a network narrower than the desired length (/24, /56), whether or not the key already has one", "C05-R18": "UpstreamPlain.processConn closes the connection after any failed exchange and pools it only after a successful one (shared with C17-R4)", "C05-R17": "dnsmsg.ecsData: the option's address is converted in the family the option declares (netutil.IPToAddr with that family), and the option is accepted exactly for family 1 or 2, a convertible address, a valid source length (the bits-beyond-the-prefix test is explored but not pinned by the table)", "C05-R16": "respIsECSDependent: a non-zero scope is ignored only when the question name itself is listed in FakeECSFQDNs (exact lookup of the name)", "C05-R15": "padAnswer only appends to the response's options, so the client-subnet echo survives padding on encrypted transports (table shared with C08-R5)", "C05-R14": "a query with more than one OPT record is answered with FORMERR and never reaches the handlers, which read and replace the client subnet in the last OPT record only (accept-gate table shared with C01-R1; table of the counting helper over additional sections of up to three records)", "C05-RC": "class rules (error chains, shadowed results, character classes, crossed arguments, pool constructors, array pools, loop completeness, loop-carried buffers, replacing setters, complete clones, Grow arithmetic, pooled-buffer escape, sorted searches, fresh decode targets, per-iteration objects, whole-message copies, codec guards) over the packages this property rests on", "C05-R13": "caches store and hand out clones (shared with C07-R4)", "C05-R12": "no slice built on a pooled byte buffer that the function gives back is stored into a longer-lived object (expected count today: zero Get/Put pairs in this code; positive instances are the seeded changes)", "C05-R11": "every maxminddb Lookup / Network call decodes into a zero value created for that call (the decoder leaves absent fields untouched)", "C05-R10": "geoip.File.Refresh: no path from installing new databases to the return skips clearing either lookup cache", "C05-R1": "handler decision tree and upstream-subnet provenance", "C05-R2": "who writes cacheRequest.subnet",
 				"C05-R3": "lookup order and opt-out gate", "C05-R4": "echo gates and setECS table", "C05-R5": "ECS record / FORMERR tables"},
 		}})
 }
 
 func runC05(c *an.Ctx) {
+	// ---- R21: the desired subnet length follows the family of the network
+	if n := c05DesiredLengthByFamily(c, "C05-R21"); n < 4 {
+		c.Und("C05-R21", "replaceSubnet calls of the GeoIP scanner", token.NoPos, "only %d calls found (4 confirmed by reading)", n)
+	}
+	// ---- R20: pooled OPT records start empty (shared with C08-R6)
+	c.Floor("C05-R20", 1)
+	c.Borrow("C05-R20", runC08, func(o an.Obligation) bool { return o.Rule == "C08-R6" && strings.Contains(o.Key, "newOPT") })
 	classSweep(c, "C05")
 	// ---- R19: a network narrower than the desired length never becomes the subnet of a country or location
 	c.Floor("C05-R19", 2)
@@ -237,7 +244,7 @@ func runC05(c *an.Ctx) {
 
 	// ---- R1 handler
 	decide(c, "C05-R1", "ecscache.(*mwHandler).ServeDNS", an.DecideCfg{
-		Dom: an.Domain{"ri.ECS": {an.Nil(), an.NonNil("ri.ECS")}, "bits0": an.Bools, "geoerr": an.Bools, "hit": an.Bools,
+		Dom: an.Domain{"ri.ECS": {an.Nil(), an.NonNil("ri.ECS")}, "bits0": an.Bools, "geozero": an.Bools, "geoerr": an.Bools, "hit": an.Bools,
 			"nexterr": an.Bools, "nrwmsg": an.Bools, "seterr": an.Bools},
 		Inline: func(f *ssa.Function) bool { return an.FnKey(f) == "ecscache.(*mwHandler).ServeDNS$1" },
 		OnCall: func(it *an.Interp, name string, args []an.AV) (an.AV, bool) {
@@ -247,6 +254,13 @@ func runC05(c *an.Ctx) {
 			case name == "agd.MustRequestInfoFromContext":
 				return an.NonNil("ri"), true
 			case name == "(net/netip.Prefix).Bits":
+				if strings.HasPrefix(args[0].String(), "geosubnet(") {
+					// the looked-up subnet: the zero prefix for a location without data (C04-R19 demands the test)
+					if it.Feature("geozero").IsTrue() {
+						return an.CInt(0), true
+					}
+					return an.CInt(16), true
+				}
 				if args[0].String() != "ri.ECS.Subnet" {
 					return an.Sym("bits of another prefix"), true
 				}
@@ -321,8 +335,10 @@ func runC05(c *an.Ctx) {
 			if got := o.Mem["cr.subnet"].String(); got != wantSubnet {
 				return "upstream subnet " + wantSubnet + "; got " + got
 			}
-			if got := o.Mem["cr.isECSDeclined"].String(); got != fmt.Sprint(declined) {
-				return "the opt-out flag " + fmt.Sprint(declined) + "; got " + got
+			// a location without a subnet is keyed like an opt-out (the feature is bound only when the code asks
+			// for the length of the looked-up subnet; C04-R19 demands that it does)
+			if keyed := declined || f.B("geozero"); o.Mem["cr.isECSDeclined"].String() != fmt.Sprint(keyed) {
+				return "the opt-out flag " + fmt.Sprint(keyed) + "; got " + o.Mem["cr.isECSDeclined"].String()
 			}
 			var next, hitw, missw, setecs []string
 			for _, e := range o.Effects {
@@ -833,4 +849,104 @@ func c05RefreshClears(c *an.Ctx) {
 			"every path from the installation of the new databases to the return clears the cache",
 			"a path from the installation of the new databases reaches the return without clearing "+cache+": locations computed from the previous database keep being served")
 	}
+}
+
+// c05DesiredLengthByFamily: the country and location subnets are chosen near a
+// desired length, 24 bits for IPv4 and 56 for IPv6.  With the IPv6 length
+// applied to IPv4 networks every /24../32 network counts as "broad enough" and
+// the narrowest wins: a client's own small network goes upstream.  For every
+// replaceSubnet call the length argument, followed over the phi edges, is the
+// IPv4 constant exactly on the paths where Is4() of an address held, and the
+// IPv6 constant exactly where it did not.
+func c05DesiredLengthByFamily(c *an.Ctx, rule string) (sites int) {
+	want := map[int]int64{}
+	if pkg := c.Prog.SSA.ImportedPackage("github.com/AdguardTeam/AdGuardDNS/internal/geoip"); pkg != nil {
+		for fam, n := range map[int]string{4: "desiredIPv4SubnetLength", 6: "desiredIPv6SubnetLength"} {
+			if k, ok := pkg.Members[n].(*ssa.NamedConst); ok {
+				want[fam] = k.Value.Int64()
+			}
+		}
+	}
+	if len(want) != 2 {
+		c.Und(rule, "desired subnet lengths", token.NoPos, "constants desiredIPv4SubnetLength / desiredIPv6SubnetLength not found in package geoip")
+		return 99
+	}
+	// famOfEdge: the family that a conditional edge establishes (Is4 true -> 4, false -> 6; Is6 the other way round)
+	famOfEdge := func(e an.CondEdge) int {
+		call, ok := e.If.Cond.(*ssa.Call)
+		if !ok {
+			return 0
+		}
+		switch an.CalleeName(call) {
+		case "(net/netip.Addr).Is4":
+			if e.Branch {
+				return 4
+			}
+			return 6
+		case "(net/netip.Addr).Is6":
+			if e.Branch {
+				return 6
+			}
+			return 4
+		}
+		return 0
+	}
+	famAt := func(b *ssa.BasicBlock) int {
+		fam := 0
+		for _, e := range an.DominatingConds(b) {
+			if f := famOfEdge(e); f != 0 {
+				fam = f
+			}
+		}
+		return fam
+	}
+	for _, fn := range c.AllFns {
+		k := an.FnKey(fn)
+		if fn.Blocks == nil || c.IsTestFile(fn.Pos()) || !strings.HasPrefix(k, "geoip.") {
+			continue
+		}
+		inFn := 0
+		for _, call := range an.Calls(fn) {
+			callee := an.StaticCallee(call)
+			if callee == nil || !strings.HasPrefix(callee.Name(), "replaceSubnet") || len(call.Common().Args) != 4 {
+				continue
+			}
+			sites++
+			inFn++
+			c.Analysed(k)
+			bad := ""
+			var check func(v ssa.Value, fam int, where string, depth int)
+			check = func(v ssa.Value, fam int, where string, depth int) {
+				switch x := v.(type) {
+				case *ssa.Const:
+					if fam == 0 {
+						bad = fmt.Sprintf("the length %s %s is not chosen under a test of the network's family", x.Value, where)
+					} else if x.Int64() != want[fam] {
+						bad = fmt.Sprintf("the length %s is used %s, where the network is IPv%d (desired length %d)", x.Value, where, fam, want[fam])
+					}
+				case *ssa.Phi:
+					if depth > 3 {
+						bad = "the length argument could not be followed"
+						return
+					}
+					for i, e := range x.Edges {
+						pred := x.Block().Preds[i]
+						f := famAt(pred)
+						if ifi, ok := pred.Instrs[len(pred.Instrs)-1].(*ssa.If); ok {
+							if g := famOfEdge(an.CondEdge{If: ifi, Branch: pred.Succs[0] == x.Block()}); g != 0 {
+								f = g
+							}
+						}
+						check(e, f, "on the path through "+c.Pos(pred.Instrs[len(pred.Instrs)-1].Pos()), depth+1)
+					}
+				default:
+					bad = "the length argument is not one of the two constants"
+				}
+			}
+			check(call.Common().Args[3], famAt(call.Block()), "at the call", 0)
+			c.Check(bad == "", rule, fmt.Sprintf("%s: replaceSubnet call %d gets the desired length of the network's family", k, inFn), call.Pos(),
+				"IPv4 length where Is4 holds, IPv6 length otherwise", bad+": with the other family's length the breadth test of replaceSubnet selects networks of the wrong size for the subnet sent upstream")
+		}
+	}
+	return sites
 }
